@@ -104,3 +104,15 @@ func noNilNodes(nl *sbom.NodeList) bool {
 	}
 	return true
 }
+
+// plainRegion declares the listed region "some value is not a plain word" and splits the exploration on it by
+// assumption, so that outside the region every value is known to be a plain word on the path (the string reasoning of
+// the engine then settles the flattened-string equations instead of leaving them to the solvers as one big query).
+func plainRegion(sep bool) {
+	if rt.NondetChoice("someValueNotPlain", 2) == 1 {
+		rt.Assume(sep)
+	} else {
+		rt.Assume(rt.Not(sep))
+	}
+	rt.Region("valueNotPlainWord", sep)
+}
